@@ -3,6 +3,7 @@ import mkprops as m
 S = 'Proofs/Session.v'
 E = 'Proofs/SessionExamples.v'
 IMP = ('From BE Require Import Model.Session Model.SessionTie Spec.SessionSpec Proofs.Kahn Proofs.Session Proofs.SessionExamples.\n'
+       'From BE Require Import Gen.Skeleton Proofs.SkeletonPin.\n'
        'From Coq Require Import ZArith.\nLocal Open Scope nat_scope.\nLocal Open Scope list_scope.')
 COMMON = [
  (S, 'session_wf', '{P}_ownership', 'every channel of the session network has one reader and one writer, for every input and every message that might arrive'),
@@ -10,17 +11,23 @@ COMMON = [
  (S, 'session_maximal_runs_agree', '{P}_all_maximal_runs_agree', 'every maximal run, under every scheduler, ends in the same state after the same number of steps'),
  (S, 'session_no_run_is_longer', '{P}_no_run_is_longer', None),
  (S, 'canonical_run_sound', '{P}_canonical_run_is_a_run', None),
+ ('Proofs/SkeletonPin.v', 'server_skeleton_pinned', '{P}_server_skeleton_is_the_modelled_one', 'the synchronisation skeleton of server.py, re-extracted from the source on this run, is the one the session model was written against'),
 ]
 def common(P): return [(a, b, c.replace('{P}', P), d) for a, b, c, d in COMMON]
 
 PO = 'Proofs/SessionPassOut.v'
-m.write('C09', 'A session with four conforming clients always runs to completion (every schedule).', IMP.replace('Proofs.SessionExamples.', 'Proofs.SessionExamples Proofs.SessionPassOut Proofs.Wire.'), '''(* FULL STATEMENT (not proved in this form): for every non-empty board list, every arrival order seating four clients and every
-   conforming script, every maximal run of the network ends with every process returned.  What is proved: for EVERY input, all
-   schedules agree (below); that the canonical schedule completes is evaluated by vm_compute for each session exercised by the
-   check and for the examples below - hence the suffix _partial on the combined statement. *)''',
+m.write('C09', 'A session with four conforming clients always runs to completion (every schedule).', IMP.replace('Proofs.SessionExamples.', 'Proofs.SessionExamples Proofs.SessionPassOut Proofs.Wire Model.Conform Proofs.SessionConform.'), '''(* FULL STATEMENT, PROVED (C09_conforming_sessions_complete / _every_schedule, Proofs/SessionConform.v): for every non-empty
+   board list (any deals, dealers, vulnerabilities, ids), any two team names and EVERY conforming behaviour of the four clients
+   (any legal auction of any length, any sequence of legal plays, every spelling of a call or card that the server parses - case,
+   alerts, either card notation), every schedule of the network of threads ends with every process returned and one log record
+   per board.  The four clients of these theorems connect in the order N, E, S, W; other arrival orders and extra requests are
+   covered up to the start of board 1 by the admission theorems of C20 (Proofs/SessionAdmission.v), and beyond by the
+   schedule-independence theorem plus the per-session evaluation (the statement that keeps the suffix _partial). *)''',
  common('C09') + [
  (S, 'every_schedule_reaches_canonical', 'C09_every_schedule_completes_partial', 'if the canonical run of a session reaches a final state, every schedule of that session reaches exactly that state: no deadlock, no lost wake-up, however long a thread is delayed'),
- (PO, 'passout_session_completes', 'C09_passed_out_sessions_complete', 'FULL, symbolic and unbounded, for one infinite family: ANY non-empty list of boards (arbitrary deals, dealers, vulnerabilities, ids), four clients arriving N, E, S, W, everybody passing: a schedule exists that drives the network to the state where every process has returned, with a log of one record per board'),
+ ('Proofs/SessionConform.v', 'conforming_session_completes', 'C09_conforming_sessions_complete', 'FULL, symbolic and unbounded: for every conforming session a schedule exists that drives the network to the state where every process has returned, with a log of one record per board'),
+ ('Proofs/SessionConform.v', 'conforming_session_every_schedule', 'C09_conforming_sessions_every_schedule', 'hence EVERY schedule of every conforming session completes - no deadlock, no lost wake-up, however long a thread is delayed - in the same final state and within the same number of steps'),
+ (PO, 'passout_session_completes', 'C09_passed_out_sessions_complete', 'the special case proved first: ANY non-empty list of boards (arbitrary deals, dealers, vulnerabilities, ids), four clients arriving N, E, S, W, everybody passing: a schedule exists that drives the network to the state where every process has returned, with a log of one record per board'),
  (PO, 'passout_session_every_schedule', 'C09_passed_out_sessions_every_schedule', 'hence EVERY schedule of such a session completes, in the same way and within the same number of steps'),
  (E, 'ex_played_completes', 'C09_example_played_session_completes', 'non-vacuity: a two-board session taken from a real run'),
  (E, 'ex_passed_out_completes', 'C09_example_passed_out_session_completes', None),
@@ -66,13 +73,20 @@ m.write('C10', 'Each seat is told exactly what the protocol entitles it to, and 
  (E, 'ex_played_real_run_is_the_reference', 'C10_example_transcripts_are_the_reference', 'non-vacuity'),
  (E, 'ex_admission_real_run_is_the_reference', 'C10_example_with_rejected_connections', None),
 ])
-m.write('C20', 'Admission seats one conforming client per seat and turns the others away.', IMP, '',
+A = 'Proofs/SessionAdmission.v'
+m.write('C20', 'Admission seats one conforming client per seat and turns the others away.', IMP.replace('Proofs.SessionExamples.', 'Proofs.SessionExamples Proofs.SessionPassOut Proofs.Wire Proofs.SessionAdmission.').replace('Local Open Scope nat_scope.', 'Local Open Scope string_scope.\nLocal Open Scope nat_scope.'), '',
  common('C20') + [
  (S, 'rejected_iff', 'C20_rejected_iff', 'a request is turned away exactly for a wrong protocol version, a seat already taken, or a team name different from the seated partner\'s'),
  (S, 'seated_keeps_seats', 'C20_monotone', 'whatever arrives later, a seated client keeps its seat and team (a rejected request leaves the table unchanged)'),
  (S, 'partners_share', 'C20_partners_share', None),
  (S, 'all_seated_eventually', 'C20_completes', 'if every seat is eventually offered an acceptable request, all four seats are taken'),
- (S, 'every_schedule_reaches_canonical', 'C20_independent_of_timing_partial', None),
+ (A, 'table_seats_first_acceptable', 'C20_first_acceptable_request_per_seat', 'the table reached seats, in every seat, exactly the FIRST request for it that was acceptable when it was looked at; every other request for that seat that was looked at was turned away'),
+ (A, 'admission_phase_any', 'C20_admission_network_any', 'FULL, symbolic and unbounded, at the level of the thread network: for EVERY list of requests (any seats, teams, versions, order, length; no hypothesis) there is a schedule after which main has run the accept loop over exactly the requests it looks at and every connection is in the state its outcome prescribes'),
+ (A, 'admission_phase', 'C20_admission_network', 'when the requests fill the table: every request looked at and turned away got exactly its error line and was closed, its thread returned, its client failed; every seated one got exactly its seated line; the requests after the table was full were never looked at'),
+ (A, 'seating_phase', 'C20_seating_network', 'and then all four are told both team names (the names of the table) and the first board is about to start - for any boards and scripts'),
+ (S, 'every_schedule_reaches_canonical', 'C20_independent_of_timing_partial', 'with the confluence theorem above all maximal runs end in one final state, a continuation of the state reached by that schedule (transcripts are append-only)'),
+ (A, 'premises_satisfiable', 'C20_example_premises', 'non-vacuity: eight requests - wrong version, duplicate seat, partner mismatch, one too late'),
+ (A, 'admission_instance', 'C20_example_admission_instance', None),
  (E, 'ex_admission_model_is_the_real_run', 'C20_example_model_is_the_real_run', 'non-vacuity: eight requests, four turned away'),
  (E, 'ex_admission_real_run_is_the_reference', 'C20_example_real_run_is_the_reference', None),
 ])
